@@ -239,7 +239,7 @@ class Ref(object):
             raise UNSPECIFIED("V assigned a matrix of a lower type")
         if val.m * val.n != len(self.pat):
             raise RAISES(E_TYPE | E_INDEX, "V must have one value per stored entry")
-        if val.n != 1 and val.m * val.n > 0:
+        if (val.m, val.n) != (len(self.pat), 1):
             raise UNSPECIFIED("V assigned a matrix that is not a single column")
         if len(set(self.pat)) != len(self.pat):
             raise UNSPECIFIED("pattern with repeated positions")
@@ -429,8 +429,17 @@ class Ref(object):
         # numbers, or a dense or sparse matrix"
         if key is self or (isinstance(key, tuple) and any(k is self for k in key)):
             raise UNSPECIFIED("the assigned matrix is its own index")
-        (scalar, pos, (r, c)), (kind, rhs) = all_of(lambda: self._resolve(key), lambda: self._rhs_class(val))
+        try:
+            (scalar, pos, (r, c)), (kind, rhs) = all_of(lambda: self._resolve(key), lambda: self._rhs_class(val))
+        except RAISES as e:
+            k2, v2 = evaluate(self._rhs_class, val)
+            if k2 == "value" and (v2[0] == "seq" or (v2[0] == "mat" and not v2[1].is_scalar())):
+                # the block does not exist, so a size complaint about the right-hand side is as good
+                raise RAISES(e.allowed | E_TYPE, e.why + "; size of the right-hand side cannot match")
+            raise
         cnt = r * c
+        if scalar and kind == "mat" and rhs.sp:
+            raise UNSPECIFIED("sparse right-hand side for a single element")
         if kind == "num":
             new = [rhs] * cnt
         elif kind == "mat":
@@ -819,7 +828,7 @@ def _blocks(x, tc, min_tc="i"):
     if tc is not None:
         if ORDER[tc] < ORDER[t]:
             raise RAISES(E_TYPE, "blocks cannot be converted to %s" % tc)
-        t = tc
+        t = maxtc(tc, min_tc)
     v = [_zero(t)] * (m * n)
     c0 = 0
     for col, (rows, width) in zip(cols, colinfo):
@@ -862,6 +871,8 @@ def _matrix(x, size, tc):
         return Ref(t, m, n, [conv(x, t)] * (m * n))
     if isinstance(x, Ref):
         t = tc or x.tc
+        if ORDER[x.tc] > ORDER[t]:
+            raise RAISES(E_TYPE, "conversion %s -> %s is not defined" % (x.tc, t))
         v = [conv(e, t) for e in x.v]
         m, n = size if size is not None else (x.m, x.n)
         if m * n != x.m * x.n:
@@ -935,6 +946,8 @@ def spmatrix(x, I, J, size=None, tc=None):
             raise UNSPECIFIED("sparse x")
         vals = list(x.v)
         t = tc or ("z" if x.tc == "z" else "d")
+        if ORDER[x.tc] > ORDER[t]:
+            raise RAISES(E_TYPE, "conversion %s -> %s is not defined" % (x.tc, t))
     elif is_seq(x):
         vals = _seq_values(x)
         for e in vals:
@@ -974,6 +987,8 @@ def sparse(x, tc=None):
         raise RAISES(E_TYPE, "integer sparse matrices are not implemented")
     if isinstance(x, Ref):
         t = tc or maxtc("d", x.tc)
+        if ORDER[x.tc] > ORDER[t]:
+            raise RAISES(E_TYPE, "conversion %s -> %s is not defined" % (x.tc, t))
         r = Ref(t, x.m, x.n, [conv(e, t) for e in x.v], True)
     elif isinstance(x, list):
         t, m, n, v = _blocks(x, tc, "d")
@@ -989,6 +1004,8 @@ def spdiag(x):
     if isinstance(x, Ref):
         if x.m != 1 and x.n != 1:
             raise UNSPECIFIED("spdiag of a matrix that is not a single row or column")
+        if x.m * x.n == 0:
+            raise UNSPECIFIED("spdiag of an empty vector")
         t = maxtc("d", x.tc)
         k = x.m * x.n
         vals = list(x.v) if not x.sp or True else None
@@ -1634,13 +1651,20 @@ class Lockstep(object):
         self.program = []
         self.dead = False
         self.nunspec = 0
+        self.nfailed = 0
+        self.failed_keys = set()
 
     # -- helpers ---------------------------------------------------------
     def live(self):
         return [n for n in self.names if n in self.ref]
 
-    def fail(self, key, msg, **detail):
-        self.dead = True
+    def fail(self, key, msg, fatal=True, **detail):
+        if fatal:
+            self.dead = True
+        self.nfailed += 1
+        if key in self.failed_keys and not fatal:
+            return              # one witness per mechanism and program is enough
+        self.failed_keys.add(key)
         self.c.fail(key, msg + "\nprogram:\n  " + "\n  ".join(self.program), **detail)
 
     def _identity(self, ns):
@@ -1767,6 +1791,13 @@ class Lockstep(object):
                     self.extra_check(self, n, self.real[n], self.ref[n], label)
         return not self.dead
 
+    @staticmethod
+    def _head(label):
+        """exception-class findings are keyed by operation class (the mechanism does not depend on
+        the kind of right-hand side / index) except for the small classes"""
+        h = label.split(":")[0]
+        return h if h.startswith(("getitem", "setitem")) else label
+
     # -- one step ----------------------------------------------------------
     def step(self, src, label, result=None, mode="exec"):
         """Execute `src` in both worlds.
@@ -1815,7 +1846,7 @@ class Lockstep(object):
             ctx.count("unspec.total")
             ctx.count("unspec.%s" % val.why.split(":")[0][:60])
             if isinstance(exc, (SystemError, MemoryError)):
-                self.fail("%s:internal-error" % label,
+                self.fail("%s:exception-class:%s" % (self._head(label), type(exc).__name__),
                           "%s raised %s: %s" % (src, type(exc).__name__, exc))
                 return "dead"
             self.resync()
@@ -1828,11 +1859,16 @@ class Lockstep(object):
                           "%s returned normally; the manual defines no result (%s)" % (src, val.why))
                 return "dead"
             if not val.accepts(exc):
-                self.fail("%s:exception-class" % label,
+                # wrong class, but it did raise: the program can go on if nothing was modified
+                self.fail("%s:exception-class:%s" % (self._head(label), type(exc).__name__),
                           "%s raised %s (%s); acceptable: %s (%s)" % (src, type(exc).__name__, exc,
-                                                                       sorted(a.__name__ for a in val.allowed), val.why))
-                return "dead"
-            ctx.count("%s.outcome.raised.%s" % (self.prefix, type(exc).__name__))
+                                                                       sorted(a.__name__ for a in val.allowed), val.why),
+                          fatal=isinstance(exc, SystemError))
+                if self.dead:
+                    return "dead"
+                ctx.count("%s.outcome.raised-wrong-class" % self.prefix)
+            else:
+                ctx.count("%s.outcome.raised.%s" % (self.prefix, type(exc).__name__))
             # nothing may have changed
             if not self.compare_all(label + ":after-exception"):
                 return "dead"
@@ -1941,7 +1977,7 @@ def run_forked(c, ctx, fn):
     if payload is None:
         sig = os.WTERMSIG(status) if os.WIFSIGNALED(status) else 0
         c.check()
-        c.fail("crash:%s" % (last or "before-first-step"),
+        c.fail("crash:%s" % ((last or "before-first-step").split(":")[0]),
                "interpreter died (%s) while/after executing a step of class %r" %
                ("signal %d" % sig if sig else "exit status %d" % os.WEXITSTATUS(status), last) +
                "\nprogram:\n  " + "\n  ".join(prog))
